@@ -353,25 +353,30 @@ Lemma rows_conflict_intro a b x :
   ar_field a = x -> ar_field b = x -> (ar_write a || ar_write b) = true ->
   (ar_entry a <> ar_entry b \/ ar_multi a = true) -> rows_conflict a b = true.
 Proof.
-  intros Fa Fb W P. unfold rows_conflict, may_parallel. rewrite Fa, Fb, String.eqb_refl, W. simpl.
+  intros Fa Fb W P. unfold rows_conflict, may_parallel. rewrite Fa, Fb, String.eqb_refl, W.
   destruct P as [P|P].
   - destruct (String.eqb (ar_entry a) (ar_entry b)) eqn:E; [apply String.eqb_eq in E; contradiction|reflexivity].
   - rewrite P. apply orb_true_r.
 Qed.
 
-Lemma is_known_spec known a : is_known known a = true -> In (ar_entry a, ar_field a) known.
+Lemma edge_known_spec known a b :
+  edge_known known a b = true ->
+  In (ar_entry a, ar_entry b, ar_field a) known \/ In (ar_entry b, ar_entry a, ar_field a) known.
 Proof.
-  unfold is_known. rewrite existsb_exists. intros [[e f] [H E]]. simpl in E.
-  apply andb_true_iff in E. destruct E as [E1 E2]. apply String.eqb_eq in E1, E2. subst. exact H.
+  unfold edge_known. rewrite existsb_exists. intros [[[e1 e2] f] [H E]]. simpl in E.
+  apply andb_true_iff in E. destruct E as [F E]. apply String.eqb_eq in F. subst f.
+  apply orb_true_iff in E. destruct E as [E|E]; apply andb_true_iff in E; destruct E as [E1 E2];
+    apply String.eqb_eq in E1, E2; subst; auto.
 Qed.
 
-(* Every race of a program summarised by the table is between two accesses whose
-   (entry, field) pairs are both among the listed exceptions. *)
+(* Every race of a program summarised by the table runs along a listed conflict edge:
+   the two goroutines were started at entry points ei, ej and (ei, ej, x) or (ej, ei, x)
+   is among the exceptions. *)
 Theorem races_only_among_known known T p ents s x i j :
   protected_except known T = true -> conforms T p ents ->
   reachable p s -> race_between s x i j ->
   exists ei ej, nth_error ents i = Some ei /\ nth_error ents j = Some ej /\
-                In (ei, x) known /\ In (ej, x) known.
+                (In (ei, ej, x) known \/ In (ej, ei, x) known).
 Proof.
   intros P [Cov Multi] R RB.
   destruct (race_has_unlocked_accesses _ _ _ _ _ R RB)
@@ -386,30 +391,20 @@ Proof.
   assert (Par12 : ar_entry r1 <> ar_entry r2 \/ ar_multi r1 = true).
   { destruct (string_dec (ar_entry r1) (ar_entry r2)) as [E|E]; [right|left; exact E].
     eapply (Multi i j ei N Ei); [congruence|exact In1|exact En1]. }
-  assert (Par21 : ar_entry r2 <> ar_entry r1 \/ ar_multi r2 = true).
-  { destruct (string_dec (ar_entry r2) (ar_entry r1)) as [E|E]; [right|left; exact E].
-    eapply (Multi i j ei N Ei); [congruence|exact In2|congruence]. }
   assert (K12 : rows_conflict r1 r2 = true).
   { apply (rows_conflict_intro r1 r2 x); [congruence|congruence|rewrite W1, W2; exact W|exact Par12]. }
-  assert (K21 : rows_conflict r2 r1 = true).
-  { apply (rows_conflict_intro r2 r1 x); [congruence|congruence|rewrite W1, W2, orb_comm; exact W|exact Par21]. }
   unfold protected_except in P. rewrite forallb_forall in P.
-  exists ei, ej. split; [exact Ei|]. split; [exact Ej|]. split.
-  - pose proof (P r1 In1) as Q. apply orb_true_iff in Q. destruct Q as [Q|Q].
-    + unfold row_protected in Q. rewrite forallb_forall in Q. specialize (Q r2 In2).
-      rewrite K12, NC in Q. discriminate.
-    + apply is_known_spec in Q. rewrite En1, F1, X1 in Q. exact Q.
-  - pose proof (P r2 In2) as Q. apply orb_true_iff in Q. destruct Q as [Q|Q].
-    + unfold row_protected in Q. rewrite forallb_forall in Q. specialize (Q r1 In1).
-      rewrite K21, common_lock_sym, NC in Q. discriminate.
-    + apply is_known_spec in Q. rewrite En2, F2, X2 in Q. exact Q.
+  pose proof (P r1 In1) as Q. unfold row_protected_except in Q. rewrite forallb_forall in Q.
+  specialize (Q r2 In2). unfold pair_ok in Q. rewrite K12, NC in Q.
+  apply edge_known_spec in Q. rewrite En1, En2, F1, X1 in Q.
+  exists ei, ej. auto.
 Qed.
 
 Theorem protected_tbl_sound T p ents :
   protected_tbl T = true -> conforms T p ents -> forall x, ~ race p x.
 Proof.
   intros P C x [s [i [j [R RB]]]].
-  destruct (races_only_among_known [] T p ents s x i j P C R RB) as [ei [ej [_ [_ [[] _]]]]].
+  destruct (races_only_among_known [] T p ents s x i j P C R RB) as [ei [ej [_ [_ [[]|[]]]]]].
 Qed.
 
 (* ---------- start-up modes: the sublists of [conds t] cover every set of conditions ---------- *)
@@ -478,7 +473,7 @@ Theorem protected_except_all_sound known t on p ents s x i j :
   protected_except_all known t = true -> conforms (inst on t) p ents ->
   reachable p s -> race_between s x i j ->
   exists ei ej, nth_error ents i = Some ei /\ nth_error ents j = Some ej /\
-                In (ei, x) known /\ In (ej, x) known.
+                (In (ei, ej, x) known \/ In (ej, ei, x) known).
 Proof.
   intros P C R RB. unfold protected_except_all in P. rewrite forallb_forall in P.
   specialize (P _ (restrict_in_modes on t)). rewrite inst_restrict in P.
@@ -489,7 +484,7 @@ Theorem protected_sound t on p ents :
   protected t = true -> conforms (inst on t) p ents -> forall x, ~ race p x.
 Proof.
   intros P C x [s [i [j [R RB]]]].
-  destruct (protected_except_all_sound [] t on p ents s x i j P C R RB) as [ei [ej [_ [_ [[] _]]]]].
+  destruct (protected_except_all_sound [] t on p ents s x i j P C R RB) as [ei [ej [_ [_ [[]|[]]]]]].
 Qed.
 
 (* exec is the step relation *)
